@@ -22,7 +22,7 @@ ASSUME = [
     "a subtree is serialized on its own only when it is whitespace-reduced standing alone (precondition of the property)",
 ]
 
-WRAP_MODEL = False  # becomes True once the TextWrappingSerializer model is served by the driver
+WRAP_MODEL = True  # the TextWrappingSerializer model (Model/Wrapping.lean) is served by the driver as `wrapser`
 
 
 def reduced_alone(t):
